@@ -15,7 +15,7 @@ namespace etl {
 template <typename InputIter, typename T, typename BinaryOp>
 [[nodiscard]] constexpr auto reduce(InputIter first, InputIter last, T init, BinaryOp op) -> T
 {
-    return accumulate(first, last, init, op);
+    return etl::accumulate(first, last, init, op);
 }
 
 /// \brief Similar to etl::accumulate.
@@ -24,7 +24,7 @@ template <typename InputIter, typename T, typename BinaryOp>
 template <typename InputIter, typename T>
 [[nodiscard]] constexpr auto reduce(InputIter first, InputIter last, T init) -> T
 {
-    return reduce(first, last, init, etl::plus<>());
+    return etl::reduce(first, last, init, etl::plus<>());
 }
 
 /// \brief Similar to etl::accumulate.
